@@ -60,7 +60,10 @@ def qubit_pulse(rng, nq, traceless_nops, n_dt, dt, tag):
     return dict(d=d, c_opers=np.array(cops), c_ids=[f'{tag}C{i}' for i in range(n_c)],
                 c_coeffs=rng.standard_normal((n_c, n_dt)), n_opers=np.array(nops),
                 n_ids=[f'{tag}N{i}' for i in range(n_n)],
-                n_coeffs=rng.uniform(0.3, 1.5, (n_n, n_dt)), dt=dt, basis=('pauli',),
+                n_coeffs=rng.uniform(0.3, 1.5, (n_n, n_dt)), dt=dt,
+                # sometimes the Pauli basis re-indexed through numpy (the object keeps its label)
+                basis=('pauli',) if rng.random() < 0.8 else
+                ('derived', ('pauli',), 'permute', int(rng.integers(0, 2**31))),
                 features=['nontraceless_nop'] if not traceless_nops else [])
 
 
@@ -133,7 +136,7 @@ def check_extend(ctx, case):
             n_terms.append((embed(o, list(q), N), c, i + suffix))
     n_terms += add_terms
     ref = ff.PulseSequence([[o, c, i] for o, c, i in c_terms], [[o, c, i] for o, c, i in n_terms],
-                           dt, ff.Basis.pauli(N))
+                           dt, ext.basis)
     probs = []
     Hc = np.einsum('ijk,il->ljk', ext.c_opers, ext.c_coeffs)
     Hr = np.einsum('ijk,il->ljk', ref.c_opers, ref.c_coeffs)
